@@ -1904,9 +1904,13 @@ func (s *SweepingProvider) batchReprovide(prefix bitstr.Key) {
 		prefix = coveredPrefix
 	}
 
-	// Remove all keys matching coveredPrefix from provide queue. No need to
-	// provide them anymore since they are about to be reprovided.
-	s.provideQueue.DequeueMatching(prefix)
+	// Remove all keys matching coveredPrefix from provide queue. Those that are
+	// in the keystore are about to be reprovided; the others (ProvideOnce keys,
+	// which are never stored) must be sent along, or they would be dropped.
+	// Duplicates are harmless: the region key tries ignore them.
+	if extra := s.provideQueue.DequeueMatching(prefix); len(extra) > 0 {
+		keys = append(keys, extra...)
+	}
 	// Remove covered prefix from the reprovide queue, so since we are about the
 	// reprovide the region.
 	s.reprovideQueue.Remove(prefix)
